@@ -13,7 +13,7 @@ from vf import detloop, env, xs
 
 YMAX = 2
 ENTRY = 0  # 0: validate_deep_anwendungshandbuch, 1: validate_segment
-ELEMS = (("D0", "Muss [1][950]", "alpha"), ("D1", "Muss [950]", ""), ("D2", "Kann [2][951] U [950]", "gamma"), ("D3", "X [950]", None), ("D4", "Muss [950] U [951]", "apple"), ("D5", "Muss [10P]", "avoca"), ("D6", "Muss [951]", ""))
+ELEMS = (("D0", "Muss [1][950]", "alpha"), ("D1", "Muss [950]", ""), ("D2", "Kann [2][951] U [950]", "gamma"), ("D3", "X [950]", None), ("D4", "Muss [950] U [951]", "apple"), ("D5", "Muss [10P]", "avoca"), ("D6", "Muss [951]", ""), ("D7", "Muss [10P]", "zzzzz"), ("D8", "Muss [UB1]", "2022-01-01T00:00:00+01:00"), ("D9", "Muss [951]", None))
 NEL = 4
 FIX = (-1, -1)
 
@@ -71,30 +71,37 @@ def own_input(y0: int, y1: int, y2: int, y3: int, y4: int, yr: int) -> bool:
     des = [_mk(i) for i in range(NEL)]
     seg_a = Segment(discriminator="SEG-A", ahb_expression="Muss", data_elements=des[:3], section_name="s", segment_id="00001")
     seg_b = Segment(discriminator="SEG-B", ahb_expression="Kann", data_elements=des[3:5], section_name="s", segment_id="00002")
-    # a two-element segment: filled element first, then an empty one; the filled one gets its format constraint through a package
-    extra = [DataElementFreeText(discriminator=ELEMS[i][0], ahb_expression=ELEMS[i][1], entered_input=ELEMS[i][2], data_element_id=f"001{i}") for i in (5, 6)]
+    # a three-element segment: filled element first, then one without any input (None), then an empty one; the filled one gets its format constraint through a package
+    extra = [DataElementFreeText(discriminator=ELEMS[i][0], ahb_expression=ELEMS[i][1], entered_input=ELEMS[i][2], data_element_id=f"001{i}") for i in (5, 9, 6)]
     seg_c = Segment(discriminator="SEG-C", ahb_expression="Muss", data_elements=extra, section_name="s", segment_id="00003")
+    # the same expression as D5 (format constraint hidden behind a package) with another input, six group levels deeper:
+    # it is evaluated after D5 has long finished
+    deep = [DataElementFreeText(discriminator=ELEMS[7][0], ahb_expression=ELEMS[7][1], entered_input=ELEMS[7][2], data_element_id="0027")]
+    seg_d = Segment(discriminator="SEG-D", ahb_expression="Muss", data_elements=deep, section_name="s", segment_id="00004")
     d = dict(y0=y0, y1=y1, y2=y2, y3=y3, y4=y4, yr=yr)
     try:
         if ENTRY == 0:
-            ahb = DeepAnwendungshandbuch(meta=AhbMetaInformation(pruefidentifikator="11042"), lines=[SegmentGroup(discriminator="SG", ahb_expression="Muss", segments=[seg_a, seg_b, seg_c], segment_groups=[])])
+            inner = SegmentGroup(discriminator="SG-VI", ahb_expression="Kann", segments=[seg_d], segment_groups=[])
+            for lvl in ("V", "IV", "III", "II", "I"):
+                inner = SegmentGroup(discriminator=f"SG-{lvl}", ahb_expression="Muss [1]", segments=[], segment_groups=[inner])
+            ahb = DeepAnwendungshandbuch(meta=AhbMetaInformation(pruefidentifikator="11042"), lines=[SegmentGroup(discriminator="SG", ahb_expression="Muss", segments=[seg_a, seg_b, seg_c], segment_groups=[inner])])
             res = detloop.run(validate_deep_anwendungshandbuch(ahb))
         else:
-            res = detloop.run(validate_segment(seg_a)) + detloop.run(validate_segment(seg_b)) + detloop.run(validate_segment(seg_c))
+            res = detloop.run(validate_segment(seg_a)) + detloop.run(validate_segment(seg_b)) + detloop.run(validate_segment(seg_c)) + detloop.run(validate_segment(seg_d))
     except Exception as e:  # pylint:disable=broad-except
         xs.reached()
         return xs.fail(f"validation raised {type(e).__name__}: {e} (yields {ys})", **d)
     recorded = list(log.fc)
     # each element validated on its own (fresh elements, nothing else running)
     solo = {}
-    elems = list(range(NEL)) + [5, 6]
+    elems = list(range(NEL)) + [5, 6, 7, 9]
     for i in elems:
-        parent = RVV.IS_OPTIONAL if i in (3, 4) else RVV.IS_REQUIRED
+        parent = RVV.IS_OPTIONAL if i in (3, 4) or (i == 7 and ENTRY == 0) else RVV.IS_REQUIRED
         r = detloop.run(validate_data_element_freetext(_mk(i), parent))
         solo[ELEMS[i][0]] = (r.validation_result.requirement_validation.value, r.validation_result.format_validation_fulfilled, r.validation_result.format_error_message)
     xs.reached()
     by_disc = {r.discriminator: r.validation_result for r in res}
-    texts = texts + [ELEMS[5][2], ELEMS[6][2]]
+    texts = texts + [ELEMS[5][2], ELEMS[6][2], ELEMS[7][2], ELEMS[9][2]]
     for i in elems:
         disc, expr, text = ELEMS[i]
         if disc not in by_disc:
